@@ -221,9 +221,36 @@ fn metadata_cases(out: &mut Vec<Case>) {
     }
 }
 
+/// More than 10 000 index hunks, so that hunk sub-directory i/00001 is used (thorough).
+fn rollover_case(out: &mut Vec<Case>) {
+    out.push(Case {
+        tag: "hunk-subdirectory rollover: 10 030 entries, one per hunk".into(),
+        opts: BOpts::new(1, 1 << 20, 1 << 20),
+        sweep: "rollover",
+        tree: Box::new(|| {
+            let mut t = empty_tree();
+            for d in 0..10 {
+                t.insert(format!("d{d}"), Node::dir(T0 + 1));
+            }
+            for i in 0..10_015u32 {
+                let n = if i % 5 == 0 {
+                    Node::file(format!("{i}").as_bytes(), T0 + 2)
+                } else {
+                    Node::file(b"", T0 + 2)
+                };
+                t.insert(format!("d{}/f{i:05}", i % 10), n);
+            }
+            t
+        }),
+    });
+}
+
 pub fn cases(thorough: bool) -> Vec<Case> {
     let mut v = Vec::new();
     metadata_cases(&mut v);
+    if thorough {
+        rollover_case(&mut v);
+    }
     structure_cases(if thorough { 4 } else { 3 }, &mut v);
     layout_cases(if thorough { 3 } else { 2 }, &mut v);
     if thorough {
@@ -348,6 +375,7 @@ pub fn replay(case: &Value) -> Vec<Violation> {
         "modes" => "modes",
         "mtimes" => "mtimes",
         "names" => "names",
+        "rollover" => "rollover",
         _ => "owners",
     };
     let t = match tree::tree_from_json(&case["tree"]) {
